@@ -72,3 +72,14 @@
 (define-fun bigOff   ((T (Array Int Int)) (s Int) (k Int)) Int (be32 T (+ s (* 6 k) 2)))
 (define-fun listSmallEnd ((T (Array Int Int)) (s Int) (k Int)) Int (be16 T (+ s (* 2 k))))
 (define-fun listBigEnd   ((T (Array Int Int)) (s Int) (k Int)) Int (be32 T (+ s (* 4 k))))
+; ---- floats (IEEE-754 through the SMT floating-point theory; one NaN value, +0 and -0 distinct)
+(define-fun f32OfBits ((n Int)) (_ FloatingPoint 8 24) ((_ to_fp 8 24) ((_ int2bv 32) n)))
+(define-fun f64OfBits ((n Int)) (_ FloatingPoint 11 53) ((_ to_fp 11 53) ((_ int2bv 64) n)))
+(define-fun f64of32 ((x (_ FloatingPoint 8 24))) (_ FloatingPoint 11 53) ((_ to_fp 11 53) RNE x))
+(define-fun f32of64 ((x (_ FloatingPoint 11 53))) (_ FloatingPoint 8 24) ((_ to_fp 8 24) RNE x))
+; largest finite float32 as a float64: 0x47EFFFFFE0000000
+(define-fun maxF32as64 () (_ FloatingPoint 11 53) (fp #b0 #b10001111110 #b1111111111111111111111100000000000000000000000000000))
+(define-fun fitsF32 ((x (_ FloatingPoint 11 53))) Bool
+  (or (fp.isNaN x) (fp.isInfinite x) (and (fp.leq x maxF32as64) (fp.leq (fp.neg maxF32as64) x))))
+(define-fun isPosInf64 ((x (_ FloatingPoint 11 53))) Bool (and (fp.isInfinite x) (fp.isPositive x)))
+(define-fun isNegInf64 ((x (_ FloatingPoint 11 53))) Bool (and (fp.isInfinite x) (fp.isNegative x)))
